@@ -537,7 +537,7 @@ func dedup(l []string) []string {
 func init() {
 	Register(&Engine{
 		Prop: "C15", Name: "concsim", Run: runC15, Aux: c15RaceAux, AuxReplay: c15AuxReplay,
-		Trials: map[string]int{"quick": 6000, "thorough": 200000},
+		Trials: map[string]int{"quick": 15000, "thorough": 250000},
 		Rule:   "programs of 2-3 tasks x 1-3 operations (namespace ops and Open/Write/Read/Truncate/Close on the task's own handle) over 4 names and a drawn start tree, in three families (disjoint subtrees, conflicting names, mixed); run on the real mem.FS whose real store sits behind a gating wrapper, under the seeded scheduler with gates at transaction open (lock gate on the store mutex), every Get/Set/Commit/Abort, every lazy Data()/ReadDirNames(), every blob mutex acquisition and every FS-level lock, listing order permuted; judged: no panic, no deadlock, and (all op results, final tree) equals the outcome of some order of the same operations that keeps each task's own order, obtained by re-executing the program sequentially on fresh instances of the same code (all orders, at most 1680); every completed program is non-trivial; distinct = event-log hash (program + schedule)",
 		Components: map[string][]string{
 			"real": {"mem.FS", "mem store + real mutex", "keyvalue.FS / file / runOnceFileRecord", "keyvalue/blob.Bytes + real mutex"},
